@@ -290,7 +290,11 @@ func orderedLayout(r *rng, n int) Layout {
 	cur := []int{}
 	flush := func() {
 		if len(cur) > 0 {
-			l = append(l, LFile{Path: fmt.Sprintf("f%04d.yaml", len(l)), Docs: cur, List: r.chance(1, 3)})
+			lf := LFile{Path: fmt.Sprintf("f%04d.yaml", len(l)), Docs: cur, List: r.chance(1, 3)}
+			if !lf.List && r.chance(1, 5) {
+				lf.Path, lf.JSON = fmt.Sprintf("f%04d.json", len(l)), true
+			}
+			l = append(l, lf)
 			cur = []int{}
 		}
 	}
